@@ -264,7 +264,9 @@ class ShapeAnalysis:
                 else:
                     self.problem(node, f"broadcast unifies an axis of kind {x} with an axis of kind {y} in `{norm_stmt(node, 70)}` (operands {ka} and {kb})")
                     out.append("?")
-            return one(("arr", tuple(k for k in out if k != "1")))
+            # a unit axis survives only where both operands have one explicitly
+            keep = [not (x == "1" and y == "1" and (i < n - len(ka) or i < n - len(kb))) for i, (x, y) in enumerate(zip(pa, pb))]
+            return one(("arr", tuple(k for k, kp in zip(out, keep) if kp)))
         return UNKNOWN
 
     def _dot(self, node, a: frozenset, b: frozenset) -> frozenset:
@@ -375,9 +377,8 @@ class ShapeAnalysis:
         out = []
         pos = 0
         for ix in items:
-            if isinstance(ix, ast.Constant) and ix.value is None:
-                continue  # newaxis: singleton, dropped
-            if isinstance(ix, ast.Name) and ix.id == "newaxis":
+            if (isinstance(ix, ast.Constant) and ix.value is None) or (isinstance(ix, ast.Name) and ix.id == "newaxis"):
+                out.append("1")  # newaxis: a unit axis
                 continue
             r = self._index_axis(e, kinds, pos, ix, env)
             if r is None:
@@ -438,6 +439,13 @@ class ShapeAnalysis:
                 return self._dot(e, self._eval(e.args[0], env), self._eval(e.args[1], env))
         if name in SAME_SHAPE_METHODS and isinstance(f, ast.Attribute):
             return self._eval(f.value, env)
+        if name == "atleast_2d" and e.args and isinstance(f, ast.Name):
+            v = single(self._eval(e.args[0], env))
+            if v and v[0] == "arr" and len(v[1]) == 1:
+                return one(("arr", ("1", v[1][0])))
+            if v and v[0] == "scalar":
+                return one(("arr", ("1", "1")))
+            return self._eval(e.args[0], env)
         if name in SAME_SHAPE_FUNCS and e.args and isinstance(f, ast.Name):
             return self._eval(e.args[0], env)
         if name in ("norm", "float", "int", "time"):
